@@ -149,23 +149,54 @@ Proof.
   apply (CInv_ext s); [congruence|congruence|exact I].
 Qed.
 
-Lemma add_shard_clock s c ref sh : 
-  (forall ch, cts (clock_of (add_shard s c ref sh) ch) = cts (clock_of s ch) /\ lts (clock_of (add_shard s c ref sh) ch) = lts (clock_of s ch))
-  /\ out (add_shard s c ref sh) = out s.
+(* the clock times and the output are the same in both states *)
+Definition same_clk (s s' : st) : Prop :=
+  (forall ch, cts (clock_of s' ch) = cts (clock_of s ch) /\ lts (clock_of s' ch) = lts (clock_of s ch)) /\ out s' = out s.
+Lemma same_clk_refl s : same_clk s s. Proof. split; [intros ch; split; reflexivity|reflexivity]. Qed.
+Lemma same_clk_trans s1 s2 s3 : same_clk s1 s2 -> same_clk s2 s3 -> same_clk s1 s3.
+Proof. intros [A B] [C D]. split; [intros ch; destruct (A ch) as [A1 A2]; destruct (C ch) as [C1 C2]; split; congruence|congruence]. Qed.
+Lemma same_clk_ext s s' : clocks s' = clocks s -> out s' = out s -> same_clk s s'.
+Proof. intros Hc Ho. split; [intros ch; rewrite (clock_of_ext s s' ch Hc); split; reflexivity|exact Ho]. Qed.
+Lemma CInv_same_clk s s' : same_clk s s' -> CInv s -> CInv s'.
+Proof. intros [A B]. apply CInv_same; assumption. Qed.
+
+Lemma start_handler_clock s src tgt recs : same_clk s (start_handler s src tgt recs).
 Proof.
-  unfold add_shard. destruct (hlookup s (sh_spch sh)); [split; [intros ch; split; reflexivity|reflexivity]|].
-  split; [|reflexivity]. intros ch.
-  set (ck := match alookup (clocks s) (sh_tpch sh) with Some k => _ | None => _ end).
-  match goal with |- cts (clock_of ?s' ch) = _ /\ _ => rewrite (clock_of_ext (set_clock s (sh_tpch sh) ck) s' ch eq_refl) end.
-  destruct (String.eqb_spec (sh_tpch sh) ch) as [<-|Hne].
-  - rewrite clock_of_set. unfold ck, clock_of. destruct (alookup (clocks s) (sh_tpch sh)); split; reflexivity.
+  unfold start_handler. split; [|reflexivity]. intros ch.
+  set (ck := match alookup (clocks s) tgt with Some k => _ | None => _ end).
+  match goal with |- cts (clock_of ?s' ch) = _ /\ _ => rewrite (clock_of_ext (set_clock s tgt ck) s' ch eq_refl) end.
+  destruct (String.eqb_spec tgt ch) as [<-|Hne].
+  - rewrite clock_of_set. unfold ck, clock_of. destruct (alookup (clocks s) tgt); split; reflexivity.
   - rewrite (clock_of_set_other _ _ _ _ Hne). split; reflexivity.
 Qed.
 
+Lemma add_shard_same_clk s c ref sh : same_clk s (add_shard s c ref sh).
+Proof.
+  unfold add_shard. destruct (hlookup s _); [apply same_clk_ext; reflexivity|].
+  destruct (Manager.has_handler _ _); [apply same_clk_ext; reflexivity|].
+  destruct (alookup _ _); [|apply same_clk_ext; reflexivity].
+  eapply same_clk_trans; [|apply start_handler_clock]. apply same_clk_ext; reflexivity.
+Qed.
+Lemma add_shard_clock s c ref sh : 
+  (forall ch, cts (clock_of (add_shard s c ref sh) ch) = cts (clock_of s ch) /\ lts (clock_of (add_shard s c ref sh) ch) = lts (clock_of s ch))
+  /\ out (add_shard s c ref sh) = out s.
+Proof. exact (add_shard_same_clk s c ref sh). Qed.
+
+Lemma fold_same_clk {A} (f : st -> A -> st) : (forall s x, same_clk s (f s x)) -> forall l s, same_clk s (fold_left f l s).
+Proof. intros H l. induction l as [|x l IH]; intros s; cbn [fold_left]; [apply same_clk_refl|]. eapply same_clk_trans; [apply H|apply IH]. Qed.
+
+Lemma materialise_same_clk s : same_clk s (materialise s).
+Proof.
+  unfold materialise. apply fold_same_clk. intros s0 k. destruct (alookup _ _); [|apply same_clk_refl].
+  destruct (Manager.find_handler _ _); [|apply same_clk_refl].
+  eapply same_clk_trans; [apply start_handler_clock|]. apply same_clk_ext; reflexivity.
+Qed.
+Lemma settle_same_clk s : same_clk s (settle s).
+Proof. unfold settle. eapply same_clk_trans; [|apply materialise_same_clk]. apply same_clk_ext; reflexivity. Qed.
+
 Lemma CInv_add_shards c ref : forall shards s, CInv s -> CInv (fold_left (fun s sh => add_shard s c ref sh) shards s).
 Proof.
-  induction shards as [|sh r IH]; intros s I; cbn [fold_left]; [exact I|]. apply IH.
-  destruct (add_shard_clock s c ref sh) as [A B]. apply (CInv_same s); assumption.
+  intros shards s. apply CInv_same_clk. apply fold_same_clk. intros s0 sh. apply add_shard_same_clk.
 Qed.
 
 Definition feed_safe (s : st) (l : label) : Prop :=
@@ -191,10 +222,10 @@ Proof. unfold sort_emsgs. rewrite <- Permutation_rev, fold_eins_perm, app_nil_r.
 
 Lemma step_CInv retries s l : CInv s -> feed_safe s l -> CInv (step retries s l).
 Proof.
-  intros I Hsafe. unfold step. apply CInv_fire. destruct l as [c|c pid pname th|c cname spch p answers|cs|c spchs].
+  intros I Hsafe. unfold step. apply CInv_fire. destruct l as [c|c pid pname th|c cname spch p answers|cs|c spchs|ns nt].
   - (* StartColl *)
     destruct (zmem _ _); [exact I|]. destruct (zlookup _ _); [exact I|]. destruct (pairing c) as [shards|]; [|exact I].
-    apply CInv_add_shards. apply (CInv_ext s); [reflexivity|reflexivity|exact I].
+    apply (CInv_same_clk _ _ (settle_same_clk _)). apply CInv_add_shards. apply (CInv_ext s); [reflexivity|reflexivity|exact I].
   - (* AddPart *)
     apply (CInv_ext s); [| |exact I]; repeat dm; reflexivity.
   - (* Feed *)
@@ -231,6 +262,8 @@ Proof.
         -- apply Forall_map. cbn [e_kind]. exact K.
   - apply (CInv_ext s); [reflexivity|reflexivity|exact I].
   - apply (CInv_ext s); [reflexivity|reflexivity|exact I].
+  - (* Config *) destruct (handlers s); [|exact I]. destruct (wsh s); [|exact I]. destruct (Manager.g_hs (mg s)); [|exact I].
+    apply (CInv_ext s); [reflexivity|reflexivity|exact I].
 Qed.
 
 Fixpoint safe (retries : nat) (s : st) (ls : list label) : Prop :=
